@@ -579,6 +579,31 @@ func IntOp(name string, bits int, x, y *sym.Term) *sym.Term {
 		if zero(x) || zero(y) {
 			return sym.ConstI(0)
 		}
+		// a mask that keeps every bit the operand can have is the identity: (b >> k) & m with m >= 2^(bits-k) - 1,
+		// b & (2^bits - 1)
+		for _, pr := range [][2]*sym.Term{{x, y}, {y, x}} {
+			v, m := pr[0], pr[1]
+			if !m.IsConst() || v.Sort == sym.Bool {
+				continue
+			}
+			width := bits
+			if sm := intOpRe.FindStringSubmatch(v.Op); sm != nil && sm[1] == "shr" && len(v.Args) == 2 && v.Args[1].IsConst() && v.Args[1].C.IsInt64() {
+				if w, _ := strconv.Atoi(sm[2]); w > 0 {
+					width = w - int(v.Args[1].C.Int64())
+				}
+			} else if v.Op != "byteat" {
+				continue
+			} else {
+				width = 8
+			}
+			if width > 0 && width <= 64 {
+				full := new(big.Int).Lsh(big.NewInt(1), uint(width))
+				full.Sub(full, big.NewInt(1))
+				if new(big.Int).And(m.C, full).Cmp(full) == 0 {
+					return v
+				}
+			}
+		}
 		if x.Sort == sym.Bool && y.Sort == sym.Bool {
 			return sym.App(sym.Bool, "band", x, y)
 		}
